@@ -93,12 +93,12 @@ TESTED_NOT_PROVED = [
     "oracle against a fresh evaluation and against the set-based reference); nested attribute lists (neighbors) ARE shared by reference between an ITS, "
     "its centre and its contexts (networkx shallow copies) and the oracle does not demand otherwise",
     "paralle_context_extraction with n_jobs > 1 (joblib falls back to 1 inside the harness' daemonic workers)",
-    "object identity: context_extraction returns a NEW dict whose other entries ARE the input's objects (oracle list-output-dict); the model's dicts are values",
+    "context_extraction leaves the input dict and its graphs untouched and the result's other entries equal the input's (oracle; identity is not demanded); the model's dicts are values",
     "get_rc / the RadiusExpand helpers do not mutate their input graph, their element_key list or earlier results; context_extraction copies the dict "
     "(oracle on every option / helper / list / history case)",
     "isinstance(order, tuple) in find_unequal_order_edges: ITS graphs whose order is a list are outside the model (the library never builds them)",
 ]
-LEVEL_TEXT = ("Machine-checked proof (Coq, 72 theorems, all closed under the global context) over an executable model of get_rc and RadiusExpand: on every "
+LEVEL_TEXT = ("Machine-checked proof (Coq, 76 theorems, all closed under the global context) over an executable model of get_rc and RadiusExpand: on every "
               "well-formed ITS graph whose standard_order is the order difference the centre contains a bond iff its two orders differ or both atoms "
               "are hydrogens (for ignore_aromaticity ITS graphs: iff the orders differ by at least 1, with a witness that 'differs' alone fails; "
               "stated also on the two sides: for the ITS of a reactant graph G and a product graph H two atoms are joined in the centre iff they are "
@@ -265,6 +265,11 @@ def impl_S(case):
     if "shist" in case:
         objs = {w: _build_S(case, w) for w in case["sopts"]}
         return [ST.obs_sits(_s_query(objs[w], q)) for w, q in case["shist"]]
+    if case.get("slre"):
+        I = _build_S(case)
+        rcn = list(get_rc(I).nodes())
+        path = RadiusExpand.longest_radius_extension(I, list(rcn))
+        return [rcn, list(path)] + [ST.obs_sits(RadiusExpand.extract_k(_build_S(case), k)) for k in (-1, -2, 2)]
     keys = list(case["keys"])
     out = []
     for disc, keep in OPTS:
@@ -318,6 +323,8 @@ def coq_S(case):
             else:
                 ts.append("tsits (extract_k_S %s %d%%nat)" % (lits[w], q[1]))
         return "L [%s]" % "; ".join(ts)
+    if case.get("slre"):
+        return "run_S_lre %s" % _s_lit(case)
     return "run_S_all %s %s" % (X.coq_keys(case["keys"]), _s_lit(case))
 
 
@@ -356,6 +363,24 @@ def oracle_S(case):
             if fails:
                 break
         return fails[:3]
+    if case.get("slre"):
+        I = _build_S(case)
+        rcn = list(get_rc(I).nodes())
+        path = RadiusExpand.longest_radius_extension(I, list(rcn))
+        ok = len(set(path)) == len(path) and (not path or path[0] in rcn) and (bool(path) == bool(rcn)) \
+            and all(I.has_edge(a, b) and I[a][b].get("standard_order", 1) == 0 for a, b in zip(path, path[1:]))
+        if not ok:
+            fails.append(dict(clause="extension-path", detail="longest_radius_extension %r is not a simple path of unchanged bonds starting in a centre atom %r" % (path, rcn)))
+        elif rcn:
+            ref = _longest_zero_path_from(I, rcn[0])
+            if ref is not None and len(path) < ref:
+                fails.append(dict(clause="extension-longest", detail="longest_radius_extension has %d atoms, a simple path of unchanged bonds with %d atoms starts in the first centre atom %r" % (len(path), ref, rcn[0])))
+        for k, r in ((-1, len(path)), (2, 2)):
+            ctx = RadiusExpand.extract_k(I, k)
+            if set(ctx.nodes) != _ball(I, rcn, r):
+                fails.append(dict(clause="context-atoms", detail="n_knn=%d: context atoms %r, atoms within %d bonds of the centre %r" % (k, sorted(ctx.nodes), r, sorted(_ball(I, rcn, r)))))
+            fails += _labels_clause("context n_knn=%d" % k, ctx, I)
+        return fails[:3]
     keys = list(case["keys"])
     for disc, keep in OPTS:
         I = _build_S(case)
@@ -378,6 +403,8 @@ def oracle_S(case):
         if not HS.graph_eq(I, _build_S(case)):
             fails.append(dict(clause="opt-input-mutated", detail="%s: get_rc changed its input graph" % tag))
         fails += _store_twin_clause(case, tag, rc, keys, disc, keep)
+        if not disc and not keep:
+            fails += _sides_clause_S(case, rc)
         if disc == keep:
             # renumbering the atoms yields the renumbered centre (theorem C02_rcS_equivariant), whatever the label shapes
             import networkx as nx
@@ -422,7 +449,8 @@ def _call_ctx(case, data):
 
 
 def _obs_dict(d):
-    return [[E.elem_code(k), ([1, E._int(v)] if isinstance(v, int) and not isinstance(v, bool) else [0, E.obs_its(v)])] for k, v in d.items()]
+    from ..tok import S
+    return S([[E.elem_code(k), ([1, E._int(v)] if isinstance(v, int) and not isinstance(v, bool) else [0, E.obs_its(v)])] for k, v in d.items()])
 
 
 PASSES = ("_add_changed_bonds", "_add_hh_bonds", "_add_charge_change_nodes", "_reconnect_rc_edges")
@@ -557,11 +585,12 @@ def oracle_api(case):
         return [dict(clause="list-order", detail="%d results for %d input dicts" % (len(rs), len(data)))]
     for i, (res, d) in enumerate(zip(rs, data)):
         want_keys = list(d) + ([ck] if ck not in d else [])
-        if res is d or list(res) != want_keys:
-            fails.append(dict(clause="list-output-dict", detail="dict %d: result keys %r, expected %r (a new dict)" % (i, list(res), want_keys)))
+        if sorted(res) != sorted(want_keys):
+            fails.append(dict(clause="list-output-dict", detail="dict %d: result keys %r, expected %r (in any order)" % (i, list(res), want_keys)))
             continue
-        if any(res[key] is not d[key] for key in d if key != ck):
-            fails.append(dict(clause="list-output-dict", detail="dict %d: an entry other than %r is not the input's object" % (i, ck)))
+        # the other entries carry the input's VALUES (the same object or a copy: identity is not demanded)
+        if any(not (HS.graph_eq(res[key], d[key]) if hasattr(d[key], "nodes") else (not hasattr(res[key], "nodes") and res[key] == d[key])) for key in d if key != ck):
+            fails.append(dict(clause="list-output-dict", detail="dict %d: an entry other than %r differs from the input's" % (i, ck)))
         V = d[ik]
         cls = its_class(V)
         if cls is not None and k >= 0:
@@ -571,6 +600,34 @@ def oracle_api(case):
                                   % (i, ik, ck, k, sorted(res[ck].nodes), k, sorted(want))))
     return fails[:3]
 
+
+
+def _sides_clause_S(case, rc):
+    """theorem C02_centre_vs_sides_store_true on the code: the centre bonds of ITSConstruction(G, H, options of the case) are the bonds whose
+    order differs between G and H (by >= 1 under ignore_aromaticity) or that join two hydrogens, computed from G and H"""
+    if "sopts" not in case or "shist" in case:
+        return []
+    opts = case["sopts"]
+    o = dict(ST.DEFAULT_CONSTRUCT, api="construct") if opts.get("api") == "construct-defaults" else dict(opts)
+    G, H = P1._graphs_nx(case)
+    if any(not isinstance(d.get("order"), (int, float)) for Y in (G, H) for _, _, d in Y.edges(data=True)):
+        return []
+    I = _build_S(case)
+    el = {n: d.get("element") for n, d in I.nodes(data=True)}
+    if any(isinstance(e, tuple) and (len(e) != 2 or e[0] != e[1]) for e in el.values()) or any(e is None for e in el.values()):
+        return []
+    ia = bool(o.get("ia", False))
+    want = set()
+    for u, v in set(map(frozenset, G.edges)) | set(map(frozenset, H.edges)):
+        og = G[u][v]["order"] if G.has_edge(u, v) else 0
+        oh = H[u][v]["order"] if H.has_edge(u, v) else 0
+        if (abs(og - oh) >= 1 if ia else og != oh) or (_is_h(el[u]) and _is_h(el[v])):
+            want.add(frozenset((u, v)))
+    got = {frozenset(e) for e in rc.edges}
+    if got != want:
+        return [dict(clause="centre-vs-sides", detail="options %r: centre bonds %r; bonds whose order differs between reactant and product graph%s, or H-H: %r"
+                     % (o, sorted(map(sorted, got)), " by at least 1 (ignore_aromaticity)" if ia else "", sorted(map(sorted, want))))]
+    return []
 
 
 PAIR_ATTRS = ("element", "aromatic", "hcount", "charge", "neighbors")
@@ -1779,6 +1836,10 @@ def gen_store(rng, tier):
             cases.append(dict(kind="s-exh", S=ST.pairify(g, rng), keys=list(X.DEFAULT_KEYS)))
     for _ in range(200 if q else 1500):
         cases.append(dict(kind="s-rand", S=ST.pairify(X.rand_x(rng, rng.randint(2, 9)), rng, rng.choice((1.0, 1.0, 0.5))), keys=list(rng.choice(X.KEY_CHOICES))))
+    # n_knn = -1 (longest_radius_extension) on pair-/absent-label graphs, edge lists in networkx iteration order
+    for _ in range(100 if q else 600):
+        g = X.rand_x(rng, rng.randint(2, 9)) if rng.random() < 0.6 else _cyclic_its(rng, rng.randint(3, 7))
+        cases.append(dict(kind="s-lre", S=ST.canon_S(ST.pairify(g, rng, rng.choice((1.0, 0.5)))), slre=True, keys=list(X.DEFAULT_KEYS)))
     for c in P1.gen_random(rng, 80 if q else 600, maxn=7):
         so = {"T": dict(ST.DEFAULT_CONSTRUCT), "F": {"api": "ITSGraph", "ia": False, "bal": False, "store": False}}
         steps = []
